@@ -14,6 +14,10 @@
      syms   - names of external functions resolved so far. NoSymbolCache: there is none (the code: every import asks the library
               it names); with a process-wide cache keyed by the function's name a later import of the same name from a library
               that lacks it would be accepted
+     kept   - a document that outlives its call (a client keeps the model it loaded and later parses queries against it): the last
+              position recorded in ITS index (0: no such document). position_index_t::add throws when a position is smaller than
+              the previous one, so the counter must never go back while any document lives. XtaKeepsCounter: the whole-file
+              .xta entry points leave the counter alone (the code)
    ResetBeforeReport: the <<EOF>> rule of the comment state leaves the state before it reports (a builder's handle_error may throw)
    A call = (kind, text shape). Calls are atomic here; the interesting interleaving is the ORDER of calls (histories).
    Each call builds its own Document, so the line table `lines` is per call.
@@ -25,10 +29,10 @@
    HistoryIndependent: Result(call, g) = Result(call, G0) for every reachable g.                                     *)
 EXTENDS Integers, Sequences, FiniteSets, TLC, Json
 
-CONSTANTS M, MaxCalls, LlocReset, TypesReset, ResetBeforeReport, ScalarPerBuilder, NoSymbolCache      \* LlocReset: the entry points reset yylloc to the current position (the repaired code); TypesReset: ArrayDecl starts with `types = 0`
+CONSTANTS M, MaxCalls, LlocReset, TypesReset, ResetBeforeReport, ScalarPerBuilder, NoSymbolCache, XtaKeepsCounter      \* LlocReset: the entry points reset yylloc to the current position (the repaired code); TypesReset: ArrayDecl starts with `types = 0`
 Unknown == (M \div 2) - 1
 
-G0 == [pos |-> 0, lloc |-> <<Unknown, Unknown>>, cond |-> "INITIAL", types |-> 0, pend |-> 0, scal |-> 0, syms |-> {}]
+G0 == [pos |-> 0, lloc |-> <<Unknown, Unknown>>, cond |-> "INITIAL", types |-> 0, pend |-> 0, scal |-> 0, syms |-> {}, kept |-> 0]
 
 (* text shapes: sequence of items; "t" = a token of n characters, "nl" = a newline, "err" = the token at which the
    grammar reports a syntax error, "eof" *)
@@ -41,6 +45,9 @@ Shapes == [ ok      |-> <<[k |-> "t", n |-> 3], [k |-> "t", n |-> 1], [k |-> "t"
             dimabort |-> <<[k |-> "t", n |-> 3], [k |-> "dim+", n |-> 1], [k |-> "err", n |-> 1]>>,     \* `int a[int[0,1]][;`: types++ ran, the parse aborts
             array   |-> <<[k |-> "t", n |-> 3], [k |-> "arr", n |-> 1]>>,                              \* `int g[2];` observes the counter
             scalar  |-> <<[k |-> "t", n |-> 3], [k |-> "scl", n |-> 2], [k |-> "t", n |-> 1]>>,                 \* `typedef scalar[2] s_t;` : the generated label is observable in the document
+            keep    |-> <<[k |-> "t", n |-> 3], [k |-> "t", n |-> 1], [k |-> "t", n |-> 2]>>,                    \* a model whose document is kept
+            late    |-> <<[k |-> "t", n |-> 2], [k |-> "t", n |-> 2]>>,                                        \* a query parsed against the kept document
+            xtaok   |-> <<[k |-> "t", n |-> 3], [k |-> "t", n |-> 1]>>,                                        \* a whole .xta text (parse_XTA(str, builder, newxta))
             extgood |-> <<[k |-> "t", n |-> 3], [k |-> "ext+", n |-> 2], [k |-> "t", n |-> 1]>>,                \* `import "libm.so.6" { double j0(double x); };` - the library has the function
             extbad  |-> <<[k |-> "t", n |-> 3], [k |-> "ext-", n |-> 2], [k |-> "t", n |-> 1]>>,                \* the same import from a library that lacks it: a diagnostic
             cmteof  |-> <<[k |-> "t", n |-> 1], [k |-> "cmt", n |-> 2]>>,                              \* unterminated comment: <<EOF>> in <comment> resets the condition
@@ -81,9 +88,11 @@ RunItems(st, items, i) ==
                    ELSE RunItems([st EXCEPT !.g.pos = p2, !.g.lloc = <<g.pos, p2>>, !.line = @ + 1,
                                             !.lines = Append(@, [p |-> p2, line |-> st.line + 1])], items, i + 1)
 Call(kind, g) ==
-    LET p1 == Mod(g.pos + 1)                                       \* setPath: ++position, add(position, 0, 1, path)
+    LET p1 == Mod((IF kind = "xtaok" /\ ~XtaKeepsCounter THEN 0 ELSE g.pos) + 1)      \* setPath: ++position, add(position, 0, 1, path)
         g1 == [g EXCEPT !.pos = p1, !.pend = 0, !.lloc = IF LlocReset THEN <<p1, p1>> ELSE @, !.scal = IF ScalarPerBuilder THEN 0 ELSE @]     \* the call constructs its builder
-        st0 == [g |-> g1, lines |-> <<[p |-> p1, line |-> 1]>>, line |-> 1, diags |-> <<>>, out |-> "run", arrdim |-> 0, labels |-> <<>>]
+        st0 == [g |-> g1, lines |-> <<[p |-> p1, line |-> 1]>>, line |-> 1, diags |-> <<>>,
+                out |-> IF kind = "late" /\ g.kept # 0 /\ p1 < g.kept THEN "throw:logic_error" ELSE "run",      \* the kept document's index refuses a smaller position
+                arrdim |-> 0, labels |-> <<>>]
         st == RunItems(st0, Shapes[kind], 1)
         (* end of input *)
         st2 == IF st.out # "run" THEN st
@@ -92,7 +101,9 @@ Call(kind, g) ==
                ELSE IF st.g.cond = "comment" THEN [st EXCEPT !.g.cond = "INITIAL", !.diags = Append(@, Diag(st, "comment not closed")), !.out = "abort"]
                ELSE IF Shapes[kind] = <<>> \/ kind = "blank" THEN [st EXCEPT !.diags = Append(@, Diag(st, "unexpected end")), !.out = "abort"]
                ELSE [st EXCEPT !.out = "return"]
-    IN [g |-> st2.g, res |-> [out |-> st2.out, diags |-> st2.diags, arrdim |-> st2.arrdim, labels |-> st2.labels]]
+        lastp == st2.lines[Len(st2.lines)].p
+        gend == IF kind \in {"keep", "late"} /\ st2.out # "throw:logic_error" THEN [st2.g EXCEPT !.kept = lastp] ELSE st2.g
+    IN [g |-> gend, res |-> [out |-> st2.out, diags |-> st2.diags, arrdim |-> st2.arrdim, labels |-> st2.labels]]
 Result(kind, g) == Call(kind, g).res
 
 VARIABLES g, hist, last
@@ -106,7 +117,7 @@ Spec == Init /\ [][Next]_vars
 
 HistoryIndependent == last.kind # "" => Result(last.kind, last.before) = Result(last.kind, G0)
 (* which global made the difference, for the counterexample reader *)
-Sensitive(k, gg) == {f \in {"pos", "lloc", "cond", "types", "scal", "syms"} : Result(k, [G0 EXCEPT ![f] = gg[f]]) # Result(k, G0)}
+Sensitive(k, gg) == {f \in {"pos", "lloc", "cond", "types", "scal", "syms", "kept"} : Result(k, [G0 EXCEPT ![f] = gg[f]]) # Result(k, G0)}
 EmitHist == PrintT(<<"EMIT", ToJson([h |-> hist, indep |-> HistoryIndependent,
                                      why |-> IF last.kind = "" THEN {} ELSE Sensitive(last.kind, last.before)])>>)
 View == <<g, Len(hist)>>
